@@ -32,6 +32,9 @@ pub struct AResponse {
     pub frames: Vec<AFrame>,
     pub error: Option<AError>,
     pub form: Form,
+    /// Output the failing command printed before its ACK (only meaningful with `error`). It is not
+    /// the frame of a command that succeeded, so it is not part of the decoded response.
+    pub partial: Option<AFrame>,
 }
 
 /// What a decoder is expected to deliver / did deliver for one response.
@@ -171,7 +174,7 @@ impl AError {
 
 impl AResponse {
     pub fn ok_single(frame: AFrame) -> AResponse {
-        AResponse { frames: vec![frame], error: None, form: Form::Single }
+        AResponse { frames: vec![frame], error: None, form: Form::Single, partial: None }
     }
 
     /// Serialise as an MPD server would.
@@ -180,6 +183,9 @@ impl AResponse {
             Form::Single => {
                 // a single command either prints its frame and OK, or only ACK
                 if let Some(e) = &self.error {
+                    if let Some(p) = &self.partial {
+                        p.encode_into(out);
+                    }
                     e.encode_into(out);
                 } else {
                     if let Some(f) = self.frames.first() {
@@ -194,6 +200,9 @@ impl AResponse {
                     out.extend_from_slice(b"list_OK\n");
                 }
                 if let Some(e) = &self.error {
+                    if let Some(p) = &self.partial {
+                        p.encode_into(out);
+                    }
                     e.encode_into(out);
                 } else {
                     out.extend_from_slice(b"OK\n");
